@@ -188,6 +188,13 @@ pub fn retry_token_native(_x: u8) -> u32 {
     // ... from another port or another IP it is an error (INVALID_TOKEN)
     assert!(crate::token::IncomingToken::from_header(&hdr(token), &server, "10.0.0.1:4434".parse().unwrap()).is_err(), "retry token accepted from another port");
     assert!(crate::token::IncomingToken::from_header(&hdr(token), &server, "10.0.0.2:4433".parse().unwrap()).is_err(), "retry token accepted from another address");
+    // ... and it carries the time of the server's OWN clock: once that clock has passed issue time + lifetime the token is stale
+    let mut later = ServerConfig::new(Arc::new(nullcrypto::NullServerCrypto), Arc::new(TagTokenKey));
+    later.time_source = Arc::new(FixedTime(issued + later.retry_token_lifetime + Duration::from_secs(1)));
+    assert!(crate::token::IncomingToken::from_header(&hdr(token), &later, remote).is_err(), "a Retry token older than its lifetime on the server's clock was accepted (issued with another clock?)");
+    let mut just = ServerConfig::new(Arc::new(nullcrypto::NullServerCrypto), Arc::new(TagTokenKey));
+    just.time_source = Arc::new(FixedTime(issued + just.retry_token_lifetime - Duration::from_secs(1)));
+    assert!(crate::token::IncomingToken::from_header(&hdr(token), &just, remote).is_ok(), "a Retry token within its lifetime was refused");
     1
 }
 
